@@ -6,6 +6,8 @@ import NetaddrVerif.Model.ComparePickle
   `cmp3 X Y Z`         `<=` of (X,Y) (Y,Z) (X,Z), then `==` of the same pairs
   `sorted L L'`        `sorted(L)` and whether `sorted(L')` is the same list
   `roundtrip OBJ how`  the object rebuilt by copy / deepcopy / p0..p5, or `!tag`
+  `hashrt OBJ how`     `H(x) H(y)` for the object x and its copy y: `H` = the tuple `hash()` is applied to, as a pyval
+                       (`Cmp.hashFieldsP`), or `!type` (TypeError: IPSet, OUI, IAB)
   objects: `A:ver:val` `N:ver:val:plen` `R:ver:lo:hi` (IPRange and IPGlob)
            `S:[N:…,…]` (IPSet) `E:ver:val:dialect` (EUI)
            `G:s:<hex>` (IPGlob built from that text; printed `G:lo:hi:s:<hex of str()>`)
@@ -97,8 +99,46 @@ partial def showVal : PyVal → List String
   | .list xs => ("l" ++ toString xs.length) :: xs.flatMap showVal
   | .dict kvs => ("d" ++ toString kvs.length) :: kvs.flatMap (fun kv => showVal kv.1 ++ showVal kv.2)
 
+/-- an object token of the round-trip ops as a `PObj` (a glob is built by the model's `IPGlob(text)`) -/
+def parsePObj (o : String) : Option (R PObj) :=
+  if o.startsWith "S:" then do
+    let nets ← (← parseList (o.drop 2).toString).mapM parseNet
+    pure (.ok (.set nets))
+  else if o.startsWith "E:" then do
+    pure (.ok (.eui (← parseEui o)))
+  else if o.startsWith "G:" then do
+    let text ← parseStr (o.drop 2).toString
+    pure ((Glob.ipGlob text).map .glob)
+  else if o.startsWith "O:" then
+    match o.splitOn ":" with
+    | [_, v, rec] => do pure (.ok (.oui ⟨← v.toNat?, ← parseVal rec⟩))
+    | _ => none
+  else if o.startsWith "I:" then
+    match o.splitOn ":" with
+    | [_, v, rec] => do pure (.ok (.iab ⟨← v.toNat?, ← parseVal rec⟩))
+    | _ => none
+  else do
+    match ← parseObj o with
+    | .addr a => pure (.ok (.addr a))
+    | .net n => pure (.ok (.net n))
+    | .rng r => pure (.ok (.rng r))
+
+def showHashFields : R PyVal → String
+  | .ok v => ".".intercalate (showVal v)
+  | .error e => showErr e
+
 def handle (op : String) (args : List String) : Option String :=
   match op, args with
+  | "hashrt", [o, how] => do
+    let how ← parseHow how
+    let x ← parsePObj o
+    pure (match x with
+      | .error e => showErr e
+      | .ok x =>
+        showHashFields (hashFieldsP x) ++ " " ++
+          (match roundtripV how x with
+           | .error e => showErr e
+           | .ok y => showHashFields (hashFieldsP y)))
   | "cmp", [x, y] => do
     let x ← parseObj x; let y ← parseObj y
     pure (" ".intercalate (flags x y ++ flags y x))
